@@ -165,11 +165,85 @@ def obligations(v, name):
             return box["pair"][0]
         return v.verify("EvaluateClip", "C08", tag=f"[{na}x{npred}]", types={"vocab": "List[Obj:soundevent.data.tags.Tag]"},
                         fixed={"clip_annotations": ann, "clip_predictions": lambda sb: box["pair"][1]})
+    if name.startswith("sound_event_detection["):
+        npred, nann = map(int, name[22:-1].split("x"))
+        top_level_handlers(v)
+
+        def with_geometries(clip_obj, name):
+            """every sound event of the clip gets an optional (opaque) geometry, a function of its position"""
+            evs = clip_obj.fields["sound_events"]
+            G = z3.Function(name + ".geometry", z3.IntSort(), GS)
+            N = z3.Function(name + ".geometry.isnone", z3.IntSort(), z3.BoolSort())
+
+            def at(i, evs=evs):
+                e = evs.at(i)
+                se = e.fields["sound_event"]
+                return Obj(e.cls, {**e.fields, "sound_event": Obj(se.cls, {**se.fields, "geometry": Opt(N(i), Opq("Geometry", G(i)))})})
+            clip_obj.fields["sound_events"] = Lst(n=evs.n, at=at, tag=evs.tag)
+            return clip_obj
+
+        def lst(cls, prefix, n):
+            return lambda sb: Lst(items=[with_geometries(sb.make("Obj:" + cls, f"{prefix}{i}"), f"{prefix}{i}") for i in range(n)])
+        return v.verify("SoundEventDetection", "C08", tag=f"[{npred}x{nann}]", types={"tags": "List[Obj:soundevent.data.tags.Tag]"}, fixed={
+            "clip_predictions": lst("soundevent.data.clip_predictions.ClipPrediction", "P", npred),
+            "clip_annotations": lst("soundevent.data.clip_annotations.ClipAnnotation", "A", nann)})
     raise KeyError(name)
+
+
+def top_level_handlers(v):
+    """callees of sound_event_detection seen through their contracts: iterate_over_valid_clips (this property), evaluate_clip
+    (EvaluateClip, verified above for bounded event counts), compute_overall_metrics (C09: some list of features)"""
+    D = "soundevent.evaluation.tasks.sound_event_detection."
+    v.inline |= {D + "_evaluate_clips"}
+    v.inline.discard(D + "evaluate_clip")
+    it = v.contracts["IterateOverValidClips"]
+    ec = v.contracts["EvaluateClip"]
+    CE = "soundevent.data.clip_evaluations.ClipEvaluation"
+
+    def iterate(ex, p, args, kw, node):
+        values = v.bind(it, args, kw, ex, p)
+        preds, anns = ex.as_list(values["clip_predictions"], p, node), ex.as_list(values["clip_annotations"], p, node)
+        if not (preds.concrete and anns.concrete):
+            raise Unsupported("iterate_over_valid_clips contract use needs concrete list lengths")
+        ex.trace["assumed"].add("IterateOverValidClips contract (verified unbounded in this property)")
+        out = []
+        choices = [[None] + list(range(len(anns.items)))] * len(preds.items)
+        for pick in itertools.product(*choices):
+            res = Lst(items=[Tup([anns.items[j], preds.items[i]]) for i, j in enumerate(pick) if j is not None])
+            extra = []
+            post = v.pred(ex, it, "ensures", {**values, "result": res}, p, assumptions_out=extra)
+            p2 = p.assume(*extra, post)
+            if ex.feasible(p2.cond):
+                out.append((p2, res))
+        return out
+
+    def evaluate_clip(ex, p, args, kw, node):
+        ann, prd, enc = kw["clip_annotations"], kw["clip_predictions"], kw["encoder"]
+        values = {"vocab": enc.meta["vocab"], "clip_annotations": ann, "clip_predictions": prd}
+        pre_facts = []
+        goal = v.pred(ex, ec, "requires", values, p, assumptions_out=pre_facts)
+        from pyvc.contract import _conjuncts
+        for k_, part in enumerate(_conjuncts(goal)):
+            ex.side.append((f"call-pre/EvaluateClip.{k_}@{ex.module.name}:{node.lineno}", list(p.cond) + pre_facts, part))
+        ex.trace["assumed"].add("EvaluateClip contract (verified for bounded event counts in this property)")
+        res = v.fresh_value(ex, "Tuple[List[Optional[int]], List[NDArray], Obj:" + CE + "]", "clip_result", node)
+        extra = []
+        post = v.pred(ex, ec, "ensures", {**values, "result": res}, p.assume(goal), assumptions_out=extra)
+        return [(p.assume(goal, *extra, post), res)]
+
+    def overall_metrics(ex, p, args, kw, node):
+        ex.trace["assumed"].add("compute_overall_metrics returns some list of features (values: C09)")
+        return [(p, v.fresh_value(ex, "List[Obj:soundevent.data.features.Feature]", "run_metrics", node))]
+    v.handlers["soundevent.evaluation.tasks.common.iterate_over_valid_clips"] = iterate
+    v.handlers[D + "evaluate_clip"] = evaluate_clip
+    v.handlers[D + "compute_overall_metrics"] = overall_metrics
+    v.handlers["numpy.array"] = lambda ex, p, args, kw, node: [(p, Opq("NDMatrix", ex.fresh_sym(opaque_sort("NDMatrix"), "mat", node)))]
+    v.use("Mean")
 
 
 SIZES = [(0, 0), (0, 1), (1, 0), (1, 1), (1, 2), (2, 1)]
 SIZES_THOROUGH = [(0, 2), (2, 0), (2, 2)]
+TOP_SIZES = [(0, 0), (1, 0), (0, 1), (1, 1), (2, 1), (1, 2), (2, 2)]    # predicted clips x annotated clips
 BASE = ["classification_score", "iterate_over_valid_clips", "evaluate_sound_event"] + [f"_mean[{n}]" for n in range(4)]
 
 
@@ -178,6 +252,7 @@ def run(s):
     s.ver = v
     sizes = SIZES + (SIZES_THOROUGH if s.tier == "thorough" else [])
     names = BASE + [f"evaluate_clip[{a}x{b}]" for a, b in sizes]
+    names += [f"sound_event_detection[{a}x{b}]" for a, b in TOP_SIZES]
     s.attempt_all([task(v, nm, lambda nm=nm: obligations(v, nm)) for nm in names])
     s.min_obligations = 800
     s.discharge_all()
@@ -193,10 +268,14 @@ def run(s):
                      "validation error, every event in exactly one match, pairs only with positive affinity reporting that affinity and the "
                      "true-class probability, unpaired events 0 / 0, clip score = mean of match scores -- seeing match_geometries (C07), the "
                      "encoders (C19), compute_affinity (C06), _mean and classification_score only through their contracts; _mean for 0-3 "
-                     "scores. The stand-in detection_small runs the whole task (clips <= 3, events <= 3 + 3) against an independent reference.")
+                     "scores; the whole task (sound_event_detection, _evaluate_clips) for <= 2 predicted x <= 2 annotated clips with "
+                     "UNBOUNDED events per clip, seeing iterate_over_valid_clips and evaluate_clip through their contracts: exactly the "
+                     "clips in both inputs, each satisfying the per-clip statement, overall score = mean of the clip scores. "
+                     "The stand-in detection_small runs the whole task (clips <= 3, events <= 3 + 3) against an independent reference.")
     s.trusted |= {"MatchGeometries contract (C07, itself bounded n, m <= 2)", "encoder contracts (C19)", "compute_affinity contract (C06)",
                   "numpy: mean = sum / count, isnan false on reals, arr.sum() a function of the array",
                   "pydantic construction contract (Match, ClipEvaluation validators executed from their real bodies)",
                   "encoded scores lie in [0, 1] and sum to at most 1 (precondition: single-label scoring, float32 rounding is monotone)",
                   "engine lemma: uniqueness of the order-preserving enumeration of a filter (paper proof by induction)",
-                  "sound_event_detection / _evaluate_clips glue and the run metrics: stand-in only (C09 for the metric values)"}
+                  "run metrics of the detection task: some list of features (values: C09)",
+                  "symbolic lists carry an identity term; a pure function under contract is a function of the identity terms of its list arguments"}
